@@ -413,4 +413,731 @@ theorem Inv.run {s : State} (h : Inv s) (evs : List Event) : Inv (run s evs) := 
 theorem inv_run (v0 : Option Val) (evs : List Event) : Inv (run (init v0) evs) :=
   (Inv.init v0).run evs
 
+/-! ## ghost bookkeeping is what it says -/
+
+theorem initVal_step (s : State) (e : Event) : (step s e).initVal = s.initVal := by
+  cases e with
+  | poll j c =>
+    show (match (readyList s)[j % (readyList s).length]? with
+      | none => s
+      | some id => Action.pollTask s id c).initVal = _
+    split
+    · rfl
+    · unfold Action.pollTask
+      split
+      · rfl
+      · split
+        · rfl
+        · split <;> (try split) <;> simp [Action.futArm, Action.abortArm, clearInputIfIdle] <;> split <;> rfl
+  | _ => rfl
+
+theorem initVal_run (s : State) (evs : List Event) : (run s evs).initVal = s.initVal := by
+  induction evs generalizing s with
+  | nil => rfl
+  | cons e es ih => rw [run_cons, ih, initVal_step]
+
+theorem readyFrom_nil {i : Nat} {l : List Task} (h : readyFrom i l = []) :
+    ∀ t ∈ l, t.done = false → t.woken = false := by
+  induction l generalizing i with
+  | nil => simp
+  | cons a as ih =>
+    simp only [readyFrom] at h
+    split at h
+    · simp at h
+    · next hc =>
+      intro t ht hd
+      simp only [List.mem_cons] at ht
+      rcases ht with rfl | ht
+      · cases hw : t.woken <;> simp_all
+      · exact ih h t ht hd
+
+/-! ## property theorems — single action -/
+
+/-- **pending ↔ some dispatch is unfinished**: for every history and schedule, the action reports
+pending exactly when some dispatched `k` has neither completed (its future's arm never ran) nor had
+its abort processed (the abort arm never ran). Holds at every point, idle or not. -/
+theorem C17_pending_iff_unfinished (v0 : Option Val) (evs : List Event) :
+    (run (init v0) evs).pending = true ↔
+      ∃ (k : Nat) (t : Task), (run (init v0) evs).tasks[k]? = some t ∧ t.outcome = .running := by
+  have h := inv_run v0 evs
+  simp only [State.pending, decide_eq_true_eq, h.inFlight, ← any_iff_countP_pos, List.any_eq_true]
+  constructor
+  · rintro ⟨t, ht, hu⟩
+    obtain ⟨k, hk⟩ := List.mem_iff_getElem?.mp ht
+    exact ⟨k, t, hk, by simpa [Task.unfinished] using hu⟩
+  · rintro ⟨k, t, hk, hu⟩
+    exact ⟨t, mem_of_getElem? hk, by simp [Task.unfinished, hu]⟩
+
+/-- at an **idle point** (no woken task left) "unfinished" is a fact about the history alone:
+every unfinished dispatch has neither been resolved by `ready` nor had `abort()` called on it -/
+theorem C17_idle_unfinished_untouched (v0 : Option Val) (evs : List Event)
+    (hidle : (run (init v0) evs).idle = true) :
+    ∀ t ∈ (run (init v0) evs).tasks, t.outcome = .running → t.fut = .pending ∧ t.chan ≠ .fired := by
+  have h := inv_run v0 evs
+  intro t ht hrun
+  have ok := h.tasksOK t ht
+  have hd : t.done = false := by have := ok.doneIff; simpa [Task.unfinished, hrun] using this
+  have hw : t.woken = false := by
+    apply readyFrom_nil (i := 0) _ t ht hd
+    simpa [State.idle, readyList] using hidle
+  constructor
+  · cases hf : t.fut with
+    | pending => rfl
+    | ready v => have := ok.wake hd (.inl (by simp [hf])); simp [hw] at this
+  · intro hc
+    have := ok.wake hd (.inr hc); simp [hw] at this
+
+/-- the same statement in the form of the property: at an idle point the action is pending iff some
+dispatch was neither resolved nor aborted -/
+theorem C17_pending_iff_untouched_at_idle (v0 : Option Val) (evs : List Event)
+    (hidle : (run (init v0) evs).idle = true) :
+    (run (init v0) evs).pending = true ↔
+      ∃ (k : Nat) (t : Task), (run (init v0) evs).tasks[k]? = some t ∧ t.done = false ∧ t.fut = .pending ∧ t.chan ≠ .fired := by
+  rw [C17_pending_iff_unfinished]
+  have h := inv_run v0 evs
+  constructor
+  · rintro ⟨k, t, hk, hrun⟩
+    have ok := h.tasksOK t (mem_of_getElem? hk)
+    have hd : t.done = false := by have := ok.doneIff; simpa [Task.unfinished, hrun] using this
+    obtain ⟨a, b⟩ := C17_idle_unfinished_untouched v0 evs hidle t (mem_of_getElem? hk) hrun
+    exact ⟨k, t, hk, hd, a, b⟩
+  · rintro ⟨k, t, hk, hd, _, _⟩
+    exact ⟨k, t, hk, unfinished_of_live (h.tasksOK t (mem_of_getElem? hk)) hd⟩
+
+/-- **version = number of dispatches that completed** (= number of completion entries in the write log) -/
+theorem C17_version_counts_completions (v0 : Option Val) (evs : List Event) :
+    (run (init v0) evs).version = countP Task.completed (run (init v0) evs).tasks ∧
+    (run (init v0) evs).version = countP Write.isCompleted (run (init v0) evs).log :=
+  ⟨(inv_run v0 evs).version, (inv_run v0 evs).logCount.symm⟩
+
+/-- **value = result of the most recently completed dispatch**: the value is the last write of the log
+(completions in the order their tasks were polled, `clear` writes `None`, initially `v0`); every
+completion entry `(k, v)` belongs to a dispatch `k` whose own future produced `v` -/
+theorem C17_value_is_last_completed (v0 : Option Val) (evs : List Event) :
+    (run (init v0) evs).value = lastWrite v0 (run (init v0) evs).log ∧
+    ∀ k v, Write.completed k v ∈ (run (init v0) evs).log →
+      ∃ t, (run (init v0) evs).tasks[k]? = some t ∧ t.outcome = .completed v ∧ t.fut = .ready v := by
+  have h := inv_run v0 evs
+  constructor
+  · have := h.value; rwa [initVal_run] at this
+  · intro k v hm
+    obtain ⟨t, ht, ho⟩ := h.logSound k v hm
+    exact ⟨t, ht, ho, (h.tasksOK t (mem_of_getElem? ht)).futOf v ho⟩
+
+/-- reading of the previous theorem: right after dispatch `k` completes with `v`, the value is `v` -/
+theorem C17_value_after_completion (v0 : Option Val) (evs : List Event) (l : List Write) (k : Nat) (v : Val)
+    (hl : (run (init v0) evs).log = l ++ [.completed k v]) : (run (init v0) evs).value = some v := by
+  rw [(C17_value_is_last_completed v0 evs).1, hl, lastWrite_append]
+
+/-- **input is cleared once nothing is pending** -/
+theorem C17_input_cleared_when_idle (v0 : Option Val) (evs : List Event)
+    (h : (run (init v0) evs).pending = false) : (run (init v0) evs).input = none := by
+  have hi := (inv_run v0 evs).input
+  simp only [State.pending, decide_eq_false_iff_not] at h
+  simp [hi, h]
+
+/-- … and while something is pending it is the input of the most recent dispatch -/
+theorem C17_input_latest_while_pending (v0 : Option Val) (evs : List Event)
+    (h : (run (init v0) evs).pending = true) :
+    (run (init v0) evs).input = (run (init v0) evs).lastInput := by
+  have hi := (inv_run v0 evs).input
+  simp only [State.pending, decide_eq_true_eq] at h
+  simp [hi, h]
+
+/-! ## abort before ready -/
+
+/-- does this event poll a task whose `abort()` came before its result, with both now available,
+and let the future's arm win? (possible because `select!` is unbiased) -/
+def futWinsRace (s : State) : Event → Bool
+  | .poll j true =>
+    match (readyList s)[j % (readyList s).length]? with
+    | none => false
+    | some id =>
+      match s.tasks[id]? with
+      | none => false
+      | some t => !t.done && t.abortFirst && decide (t.chan = .fired) && decide (t.fut ≠ .pending)
+  | _ => false
+
+/-- decidable hypothesis of the partial theorem; its negation is the known-finding class `abort-race` -/
+def raceFree : State → List Event → Bool
+  | _, [] => true
+  | s, e :: es => !futWinsRace s e && raceFree (step s e) es
+
+/-- **full statement**: a dispatch whose `abort()` was called while its future was still pending never
+writes `value`/`version`, whatever happens afterwards -/
+def C17_abort_before_ready_never_writes_full : Prop :=
+  ∀ (v0 : Option Val) (evs : List Event), abortRaceLost (run (init v0) evs) = false
+
+/-- false of the code (F-C17-1): `dispatch; abort 0; ready 0 7; poll` with the unbiased `select!` looking at
+the future first writes value 7 and bumps the version although the abort was requested first -/
+theorem C17_abort_race_witness :
+    let s := run (init none) [.dispatch 1, .abort 0, .ready 0 7, .poll 0 true]
+    abortRaceLost s = true ∧ s.value = some 7 ∧ s.version = 1 ∧ s.pending = false := by
+  decide
+
+theorem C17_abort_before_ready_never_writes_full_false : ¬ C17_abort_before_ready_never_writes_full := by
+  intro h
+  have := h none [.dispatch 1, .abort 0, .ready 0 7, .poll 0 true]
+  revert this; decide
+
+def AbortOK (t : Task) : Prop :=
+  t.abortFirst = true → t.completed = false ∧ (t.done = false → t.chan = .fired)
+
+theorem abortOK_modify {s : State} (hj : ∀ t ∈ s.tasks, AbortOK t) (f : Task → Task) (k : Nat)
+    (hf : ∀ t, s.tasks[k]? = some t → AbortOK t → AbortOK (f t)) :
+    ∀ t ∈ modifyAt f s.tasks k, AbortOK t :=
+  forall_modifyAt hj fun t ht hk => hf t hk (hj t ht)
+
+theorem abortOK_clearInput {s : State} {P : Task → Prop} (h : ∀ t ∈ s.tasks, P t) :
+    ∀ t ∈ (clearInputIfIdle s).tasks, P t := by
+  unfold clearInputIfIdle; split <;> exact h
+
+theorem abortOK_step {s : State} (hi : Inv s) (hj : ∀ t ∈ s.tasks, AbortOK t) (e : Event)
+    (hr : futWinsRace s e = false) : ∀ t ∈ (step s e).tasks, AbortOK t := by
+  cases e with
+  | dispatch i =>
+    intro t ht
+    simp only [step, dispatchStep, List.mem_append, List.mem_singleton] at ht
+    rcases ht with ht | rfl
+    · exact hj t ht
+    · intro h; simp at h
+  | abort k =>
+    apply abortOK_modify hj
+    intro t ht ok
+    have tok := hi.tasksOK t (mem_of_getElem? ht)
+    split
+    · split
+      · intro ha
+        obtain ⟨a, _⟩ := ok ha
+        exact ⟨a, fun hd => by simp_all⟩
+      · next hd =>
+        intro _
+        have hrun := unfinished_of_live tok (by simpa using hd)
+        exact ⟨by simp [Task.completed, hrun], fun _ => rfl⟩
+    · exact ok
+  | dropHandle k =>
+    apply abortOK_modify hj
+    intro t _ ok
+    split
+    · next harm =>
+      split
+      · intro ha
+        obtain ⟨a, _⟩ := ok ha
+        exact ⟨a, fun hd => by simp_all⟩
+      · next hd =>
+        intro ha
+        obtain ⟨_, b⟩ := ok ha
+        have := b (by simpa using hd)
+        rw [harm] at this; cases this
+    · exact ok
+  | ready k v =>
+    apply abortOK_modify hj
+    intro t _ ok
+    split
+    · exact ok
+    · split
+      · exact ok
+      · exact ok
+  | clear => exact hj
+  | poll j c =>
+    show ∀ t ∈ (match (readyList s)[j % (readyList s).length]? with
+      | none => s
+      | some id => Action.pollTask s id c).tasks, AbortOK t
+    split
+    · exact hj
+    · next id hid =>
+      unfold Action.pollTask
+      split
+      · exact hj
+      · next t ht =>
+        split
+        · exact hj
+        · next hd =>
+          have hd : t.done = false := by simpa using hd
+          have ok := hj t (mem_of_getElem? ht)
+          -- the future's arm only runs for a task that is not `abortFirst`
+          have fut_ok : ∀ v, t.abortFirst = false →
+              ∀ x ∈ (Action.futArm s id t v).tasks, AbortOK x := by
+            intro v hab
+            apply abortOK_clearInput
+            apply abortOK_modify hj
+            intro t' ht' _
+            rw [ht] at ht'; cases ht'
+            intro ha
+            have : t.abortFirst = true := ha
+            rw [hab] at this; cases this
+          have abort_ok : ∀ x ∈ (Action.abortArm s id).tasks, AbortOK x := by
+            apply abortOK_clearInput
+            apply abortOK_modify hj
+            intro t' _ _ _
+            exact ⟨by simp [Task.completed], fun h => by simp at h⟩
+          split
+          · next v hf hc =>
+            split
+            · next hcc =>
+              subst hcc
+              apply fut_ok
+              simp only [futWinsRace, hid, ht] at hr
+              simp at hc
+              cases hab : t.abortFirst
+              · rfl
+              · simp [hd, hab, hc, hf] at hr
+            · exact abort_ok
+          · next v hf hc =>
+            apply fut_ok
+            cases hab : t.abortFirst
+            · rfl
+            · have := (ok hab).2 hd
+              simp [this] at hc
+          · exact abort_ok
+          · apply abortOK_modify hj
+            intro t' ht' ok'
+            exact ok'
+
+theorem abortOK_run {s : State} (hi : Inv s) (hj : ∀ t ∈ s.tasks, AbortOK t) (evs : List Event)
+    (hr : raceFree s evs = true) : ∀ t ∈ (run s evs).tasks, AbortOK t := by
+  induction evs generalizing s with
+  | nil => exact hj
+  | cons e es ih =>
+    simp only [raceFree, Bool.and_eq_true, Bool.not_eq_true'] at hr
+    exact ih (hi.step e) (abortOK_step hi hj e hr.1) hr.2
+
+/-- **partial**: on every history in which the unbiased `select!` never lets the future's arm win
+against an abort that was requested first (`raceFree`; in particular every history where no poll
+finds both available, and every history under a biased select), a dispatch whose `abort()` preceded
+its future's completion never writes: it is not completed and the write log has no entry for it -/
+theorem C17_abort_before_ready_never_writes_partial (v0 : Option Val) (evs : List Event)
+    (hr : raceFree (init v0) evs = true) :
+    abortRaceLost (run (init v0) evs) = false ∧
+    ∀ (k : Nat) (t : Task), (run (init v0) evs).tasks[k]? = some t → t.abortFirst = true →
+      (∀ v, t.outcome ≠ .completed v) ∧ ∀ v, Write.completed k v ∉ (run (init v0) evs).log := by
+  have hj := abortOK_run (Inv.init v0) (by simp [Action.init]) evs hr
+  have hi := inv_run v0 evs
+  constructor
+  · simp only [abortRaceLost, Bool.eq_false_iff, ne_eq, List.any_eq_true, not_exists, not_and]
+    intro t ht hc
+    simp only [Bool.and_eq_true] at hc
+    have := (hj t ht hc.1).1
+    simp [this] at hc
+  · intro k t hk ha
+    have hc := (hj t (mem_of_getElem? hk) ha).1
+    have hne : ∀ v, t.outcome ≠ .completed v := by
+      intro v hv; simp [Task.completed, hv] at hc
+    refine ⟨hne, fun v hm => ?_⟩
+    obtain ⟨t', ht', ho⟩ := hi.logSound k v hm
+    rw [hk] at ht'; cases ht'
+    exact hne v ho
+
+/-- under a biased select (the abort arm first: no `poll _ true` event) every history is race-free -/
+theorem raceFree_of_biased (s : State) (evs : List Event) (h : ∀ j, Event.poll j true ∉ evs) :
+    raceFree s evs = true := by
+  induction evs generalizing s with
+  | nil => rfl
+  | cons e es ih =>
+    simp only [raceFree, Bool.and_eq_true, Bool.not_eq_true']
+    constructor
+    · cases e with
+      | poll j c =>
+        cases c with
+        | false => rfl
+        | true => exact absurd (by simp) (h j)
+      | _ => rfl
+    · exact ih _ fun j hm => h j (by simp [hm])
+
+/-- what sets `abortFirst`: `abort k` on a live task whose handle is still armed and whose future is
+still pending (and it fires the channel) -/
+theorem C17_abortFirst_meaning (s : State) (k : Nat) (t : Task) (ht : s.tasks[k]? = some t)
+    (harm : t.chan = .armed) (hd : t.done = false) (hf : t.fut = .pending) :
+    ∃ t', (step s (.abort k)).tasks[k]? = some t' ∧ t'.abortFirst = true ∧ t'.chan = .fired ∧ t'.woken = true := by
+  simp only [step, abortStep, getElem?_modifyAt, if_true, ht, Option.map_some]
+  exact ⟨_, rfl, by simp [harm, hd, hf]⟩
+
+/-! ## multi-action -/
+
+theorem countP_map_congr {α : Type} (p : α → Bool) (g : α → α) (l : List α) (h : ∀ t, p (g t) = p t) :
+    countP p (l.map g) = countP p l := by
+  induction l with
+  | nil => rfl
+  | cons a as ih => simp [countP, ih, h]
+
+theorem getElem?_append_single {α : Type} {l : List α} {a t : α} {j : Nat}
+    (h : (l ++ [a])[j]? = some t) : (j < l.length ∧ l[j]? = some t) ∨ (j = l.length ∧ t = a) := by
+  by_cases hj : j < l.length
+  · rw [List.getElem?_append_left hj] at h; exact .inl ⟨hj, h⟩
+  · have hj' : l.length ≤ j := by omega
+    rw [List.getElem?_append_right hj'] at h
+    cases hd : j - l.length with
+    | zero => rw [hd] at h; simp at h; exact .inr ⟨by omega, h.symm⟩
+    | succ n => rw [hd] at h; simp at h
+
+namespace M
+
+structure Inv (s : State) : Prop where
+  version : s.version = s.nsync + countP (·.done) s.tasks
+  count : s.subs.length = s.tasks.length + s.nsync
+  inRange : ∀ (j : Nat) (t : Task), s.tasks[j]? = some t → t.sub < s.subs.length
+  distinct : ∀ (i j : Nat) (ti tj : Task), s.tasks[i]? = some ti → s.tasks[j]? = some tj → ti.sub = tj.sub → i = j
+  recs : ∀ (j : Nat) (t : Task), s.tasks[j]? = some t → ∃ r, s.subs[t.sub]? = some r ∧ specSub t r = true
+
+theorem Inv.init : Inv init := by
+  constructor <;> simp [M.init, countP]
+
+theorem Inv.dispatch {s : State} (h : Inv s) (i : Val) : Inv (dispatchStep s i) := by
+  constructor
+  · simp [dispatchStep, countP_append, countP, h.version]
+  · simp [dispatchStep, h.count]; omega
+  · intro j t ht
+    simp only [dispatchStep, List.length_append, List.length_singleton] at ht ⊢
+    rcases getElem?_append_single ht with ⟨_, ht⟩ | ⟨_, rfl⟩
+    · have := h.inRange j t ht; omega
+    · simp
+  · intro i' j ti tj hi hj hs
+    simp only [dispatchStep] at hi hj
+    rcases getElem?_append_single hi with ⟨_, hi⟩ | ⟨hi1, rfl⟩ <;>
+      rcases getElem?_append_single hj with ⟨_, hj⟩ | ⟨hj1, rfl⟩
+    · exact h.distinct i' j ti tj hi hj hs
+    · have := h.inRange i' ti hi; simp at hs; omega
+    · have := h.inRange j tj hj; simp at hs; omega
+    · omega
+  · intro j t ht
+    simp only [dispatchStep] at ht ⊢
+    rcases getElem?_append_single ht with ⟨_, ht⟩ | ⟨_, rfl⟩
+    · obtain ⟨r, hr, hs⟩ := h.recs j t ht
+      exact ⟨r, by rw [List.getElem?_append_left (h.inRange j t ht)]; exact hr, hs⟩
+    · exact ⟨{ input := some i, value := none, pending := true, canceled := false }, by simp, by simp [specSub]⟩
+
+theorem Inv.dispatchSync {s : State} (h : Inv s) (v : Val) : Inv (dispatchSyncStep s v) := by
+  constructor
+  · simp [dispatchSyncStep, h.version]; omega
+  · simp [dispatchSyncStep, h.count]; omega
+  · intro j t ht
+    have := h.inRange j t ht
+    simp [dispatchSyncStep]; omega
+  · exact h.distinct
+  · intro j t ht
+    obtain ⟨r, hr, hs⟩ := h.recs j t ht
+    exact ⟨r, by simp only [dispatchSyncStep]; rw [List.getElem?_append_left (h.inRange j t ht)]; exact hr, hs⟩
+
+theorem Inv.cancel {s : State} (h : Inv s) (k : Nat) : Inv (cancelStep s k) := by
+  let g : Task → Task := fun t => if t.sub = k ∧ t.done = false then { t with canceledEarly := true } else t
+  have gsub : ∀ t, (g t).sub = t.sub := by intro t; simp only [g]; split <;> rfl
+  have gdone : ∀ t, (g t).done = t.done := by intro t; simp only [g]; split <;> rfl
+  have hget : ∀ (j : Nat) (t' : Task), (cancelStep s k).tasks[j]? = some t' → ∃ t : Task, s.tasks[j]? = some t ∧ t' = g t := by
+    intro j t' ht'
+    simp only [cancelStep, List.getElem?_map] at ht'
+    cases hj : s.tasks[j]? with
+    | none => simp [hj] at ht'
+    | some t => simp [hj] at ht'; exact ⟨t, rfl, ht'.symm⟩
+  constructor
+  · show s.version = s.nsync + countP (·.done) (s.tasks.map g)
+    rw [countP_map_congr _ g _ (fun t => by simp [gdone])]; exact h.version
+  · simp [cancelStep, length_modifyAt, h.count]
+  · intro j t' ht'
+    obtain ⟨t, ht, rfl⟩ := hget j t' ht'
+    simp only [cancelStep, length_modifyAt, gsub]
+    exact h.inRange j t ht
+  · intro i j ti tj hi hj hs
+    obtain ⟨ti', hi', rfl⟩ := hget i ti hi
+    obtain ⟨tj', hj', rfl⟩ := hget j tj hj
+    rw [gsub, gsub] at hs
+    exact h.distinct i j ti' tj' hi' hj' hs
+  · intro j t' ht'
+    obtain ⟨t, ht, rfl⟩ := hget j t' ht'
+    obtain ⟨r, hr, hs⟩ := h.recs j t ht
+    simp only [cancelStep, gsub, getElem?_modifyAt, hr, Option.map_some]
+    by_cases hk : t.sub = k
+    · refine ⟨r.step .cancel, by simp [hk], ?_⟩
+      cases hd : t.done
+      · simp [specSub, hd] at hs
+        simp [g, hk, hd, specSub, Sub.step, hs]
+      · simp [specSub, hd] at hs
+        simp only [g, hk, hd]
+        simp [specSub, hd, Sub.step, hs]
+    · refine ⟨r, by simp [hk], ?_⟩
+      simp [g, hk, hs]
+
+theorem Inv.modifyTasks {s : State} (h : Inv s) (f : Task → Task) (k : Nat)
+    (hsub : ∀ t, (f t).sub = t.sub) (hdone : ∀ t, (f t).done = t.done)
+    (hspec : ∀ t r, s.tasks[k]? = some t → specSub t r = true → specSub (f t) r = true) :
+    Inv { s with tasks := modifyAt f s.tasks k } := by
+  have hget : ∀ (j : Nat) (t' : Task), (modifyAt f s.tasks k)[j]? = some t' →
+      ∃ t : Task, s.tasks[j]? = some t ∧ ((j = k ∧ t' = f t) ∨ (j ≠ k ∧ t' = t)) := by
+    intro j t' ht'
+    rw [getElem?_modifyAt] at ht'
+    by_cases hj : j = k
+    · simp only [hj, if_true] at ht'
+      cases hk : s.tasks[k]? with
+      | none => simp [hk] at ht'
+      | some t => simp [hk] at ht'; exact ⟨t, by rw [hj]; exact hk, .inl ⟨hj, ht'.symm⟩⟩
+    · simp only [hj, if_false] at ht'
+      exact ⟨t', ht', .inr ⟨hj, rfl⟩⟩
+  have hsub' : ∀ (j : Nat) (t' : Task), (modifyAt f s.tasks k)[j]? = some t' → ∃ t : Task, s.tasks[j]? = some t ∧ t'.sub = t.sub := by
+    intro j t' ht'
+    obtain ⟨t, ht, ⟨_, rfl⟩ | ⟨_, rfl⟩⟩ := hget j t' ht'
+    · exact ⟨t, ht, hsub t⟩
+    · exact ⟨_, ht, rfl⟩
+  constructor
+  · show s.version = s.nsync + countP (·.done) (modifyAt f s.tasks k)
+    rw [countP_modifyAt_congr _ f _ k (fun t => by simp [hdone])]; exact h.version
+  · simp [length_modifyAt, h.count]
+  · intro j t' ht'
+    obtain ⟨t, ht, hs⟩ := hsub' j t' ht'
+    rw [hs]; exact h.inRange j t ht
+  · intro i j ti tj hi hj hs
+    obtain ⟨ti', hi', hsi⟩ := hsub' i ti hi
+    obtain ⟨tj', hj', hsj⟩ := hsub' j tj hj
+    exact h.distinct i j ti' tj' hi' hj' (by rw [← hsi, ← hsj]; exact hs)
+  · intro j t' ht'
+    obtain ⟨t, ht, ⟨hj, rfl⟩ | ⟨_, rfl⟩⟩ := hget j t' ht'
+    · obtain ⟨r, hr, hs⟩ := h.recs j t ht
+      exact ⟨r, by rw [hsub]; exact hr, hspec t r (by rw [← hj]; exact ht) hs⟩
+    · exact h.recs j _ ht
+
+theorem Inv.ready {s : State} (h : Inv s) (k : Nat) (v : Val) : Inv (readyStep s k v) := by
+  apply h.modifyTasks
+  · intro t; split <;> (try split) <;> rfl
+  · intro t; split <;> (try split) <;> rfl
+  · intro t r _ hs
+    split
+    · exact hs
+    · next hd =>
+      split
+      · simp [specSub, hd] at hs ⊢; exact hs
+      · exact hs
+
+theorem Inv.pollTask {s : State} (h : Inv s) (id : Nat) : Inv (pollTask s id) := by
+  unfold M.pollTask
+  split
+  · exact h
+  · next t ht =>
+    split
+    · exact h
+    · next hd =>
+      have hd : t.done = false := by simpa using hd
+      split
+      · next hf =>
+        apply h.modifyTasks
+        · intro _; rfl
+        · intro _; rfl
+        · intro t' r ht' hs
+          rw [ht] at ht'; cases ht'
+          simp [specSub, hd] at hs ⊢; exact hs
+      · next v hf =>
+        let g : Task → Task := fun t => { t with woken := false, done := true }
+        have hget : ∀ (j : Nat) (t' : Task), (modifyAt g s.tasks id)[j]? = some t' →
+            (j = id ∧ t' = g t) ∨ (j ≠ id ∧ s.tasks[j]? = some t') := by
+          intro j t' ht'
+          rw [getElem?_modifyAt] at ht'
+          by_cases hj : j = id
+          · subst hj; simp [ht] at ht'; exact .inl ⟨rfl, ht'.symm⟩
+          · simp [hj] at ht'; exact .inr ⟨hj, ht'⟩
+        have hsubs : ∀ (j : Nat) (t' : Task), (modifyAt g s.tasks id)[j]? = some t' → ∃ t0 : Task, s.tasks[j]? = some t0 ∧ t'.sub = t0.sub := by
+          intro j t' ht'
+          rcases hget j t' ht' with ⟨rfl, rfl⟩ | ⟨_, h2⟩
+          · exact ⟨t, ht, rfl⟩
+          · exact ⟨t', h2, rfl⟩
+        constructor
+        · show s.version + 1 = s.nsync + countP (·.done) (modifyAt g s.tasks id)
+          have c := countP_modifyAt (·.done) g s.tasks id t ht
+          have hg : (g t).done = true := rfl
+          simp only [hd, hg] at c
+          simp at c
+          rw [h.version]; omega
+        · simp [length_modifyAt, h.count]
+        · intro j t' ht'
+          obtain ⟨t0, h0, hs⟩ := hsubs j t' ht'
+          simp only [length_modifyAt]
+          rw [hs]; exact h.inRange j t0 h0
+        · intro i j ti tj hi hj hs
+          obtain ⟨ti', hi', hsi⟩ := hsubs i ti hi
+          obtain ⟨tj', hj', hsj⟩ := hsubs j tj hj
+          exact h.distinct i j ti' tj' hi' hj' (by rw [← hsi, ← hsj]; exact hs)
+        · intro j t' ht'
+          show ∃ r, (modifyAt (Sub.step · (.resolve v)) s.subs t.sub)[t'.sub]? = some r ∧ _
+          rw [getElem?_modifyAt]
+          rcases hget j t' ht' with ⟨rfl, rfl⟩ | ⟨hj, h2⟩
+          · obtain ⟨r, hr, hs⟩ := h.recs j t ht
+            refine ⟨r.step (.resolve v), by simp only [g, if_true, hr, Option.map_some], ?_⟩
+            simp [specSub, hd] at hs
+            simp [specSub, g, hf, Sub.step, hs]
+          · obtain ⟨r, hr, hs⟩ := h.recs j t' h2
+            have hne : t'.sub ≠ t.sub := fun he => hj (h.distinct j id t' t h2 ht he)
+            exact ⟨r, by simp [hne, hr], hs⟩
+
+theorem Inv.step {s : State} (h : Inv s) (e : Event) : Inv (step s e) := by
+  cases e with
+  | dispatch i => exact h.dispatch i
+  | dispatchSync v => exact h.dispatchSync v
+  | cancel k => exact h.cancel k
+  | ready k v => exact h.ready k v
+  | poll j =>
+    show Inv (match (readyList s)[j % (readyList s).length]? with
+      | none => s
+      | some id => M.pollTask s id)
+    split
+    · exact h
+    · exact h.pollTask _
+
+theorem Inv.run {s : State} (h : Inv s) (evs : List Event) : Inv (run s evs) := by
+  induction evs generalizing s with
+  | nil => exact h
+  | cons e es ih => exact ih (h.step e)
+
+theorem inv_run (evs : List Event) : Inv (run init evs) := Inv.init.run evs
+
+/-- one step changes at most the record it targets, and changes it by the one-record machine `Sub.step` -/
+theorem step_subs (s : State) (e : Event) (k : Nat) (r : Sub) (hr : s.subs[k]? = some r) :
+    (step s e).subs[k]? = some (match target s e with
+      | some (k', ev) => if k' = k then r.step ev else r
+      | none => r) := by
+  have hk : k < s.subs.length := (List.getElem?_eq_some_iff.mp hr).1
+  cases e with
+  | dispatch i => simp only [step, dispatchStep, target]; rw [List.getElem?_append_left hk]; exact hr
+  | dispatchSync v => simp only [step, dispatchSyncStep, target]; rw [List.getElem?_append_left hk]; exact hr
+  | cancel k' =>
+    simp only [step, cancelStep, target, getElem?_modifyAt, hr, Option.map_some]
+    by_cases h : k = k'
+    · subst h; simp
+    · have : ¬ k' = k := fun h' => h h'.symm
+      simp [h, this]
+  | ready k' v => simp only [step, readyStep, target]; exact hr
+  | poll j =>
+    simp only [step, pollStep, target]
+    split
+    · exact hr
+    · next id _ =>
+      unfold M.pollTask
+      split
+      · exact hr
+      · next t _ =>
+        split
+        · exact hr
+        · split
+          · exact hr
+          · next v _ =>
+            simp only [getElem?_modifyAt, hr, Option.map_some]
+            by_cases h : k = t.sub
+            · subst h; simp
+            · have : ¬ t.sub = k := fun h' => h h'.symm
+              simp [h, this]
+
+end M
+
+/-- **multi-action: one independent record per dispatch.** After any history, an event changes only
+the submission record it targets (`cancel s` ↦ `s`; a poll that sees task `t`'s result ↦ `t`'s own
+record; `dispatch`/`dispatch_sync` only append) and changes it by the stand-alone one-record
+machine `Sub.step` — no record ever depends on another dispatch -/
+theorem C17_multi_independent (evs : List M.Event) (e : M.Event) (k : Nat) (r : M.Sub)
+    (hr : (M.run M.init evs).subs[k]? = some r) :
+    (M.step (M.run M.init evs) e).subs[k]? = some (match M.target (M.run M.init evs) e with
+      | some (k', ev) => if k' = k then r.step ev else r
+      | none => r) :=
+  M.step_subs _ e k r hr
+
+/-- closed form of every record, for all histories: the record of an unfinished dispatch shows its input,
+no value, pending, and `canceled` iff `cancel` was called; the record of a finished one has no input,
+is not pending, and holds the value its own future produced unless it was canceled before that;
+distinct dispatches own distinct records; there is exactly one record per dispatch / `dispatch_sync` -/
+theorem C17_multi_records (evs : List M.Event) :
+    let s := M.run M.init evs
+    (∀ (j : Nat) (t : M.Task), s.tasks[j]? = some t → ∃ r, s.subs[t.sub]? = some r ∧
+      (t.done = false → r = { input := some t.input, value := none, pending := true, canceled := t.canceledEarly }) ∧
+      (t.done = true → ∃ v, t.fut = .ready v ∧ r.input = none ∧ r.pending = false ∧
+        r.value = if t.canceledEarly then none else some v)) ∧
+    (∀ (i j : Nat) (ti tj : M.Task), s.tasks[i]? = some ti → s.tasks[j]? = some tj → ti.sub = tj.sub → i = j) ∧
+    s.subs.length = s.tasks.length + s.nsync := by
+  intro s
+  have h := M.inv_run evs
+  refine ⟨?_, h.distinct, h.count⟩
+  intro j t ht
+  obtain ⟨r, hr, hs⟩ := h.recs j t ht
+  refine ⟨r, hr, ?_, ?_⟩
+  · intro hd
+    simp [M.specSub, hd] at hs
+    obtain ⟨⟨⟨a, b⟩, c⟩, d⟩ := hs
+    cases r; simp_all
+  · intro hd
+    simp only [M.specSub, hd, if_true] at hs
+    cases hf : t.fut with
+    | pending => simp [hf] at hs
+    | ready v =>
+      simp [hf] at hs
+      exact ⟨v, rfl, hs.1.1.1, hs.1.1.2, hs.2⟩
+
+/-- multi-action version = resolved dispatches (canceled ones included, as in the code) + `dispatch_sync` calls -/
+theorem C17_multi_version (evs : List M.Event) :
+    (M.run M.init evs).version = (M.run M.init evs).nsync + countP (·.done) (M.run M.init evs).tasks :=
+  (M.inv_run evs).version
+
+/-! ## the driver's `idle` op is a list of poll events (so every theorem applies to driver states) -/
+
+theorem runIdle_is_run (c : Bool) (n : Nat) (s : State) : ∃ evs, runIdle c n s = run s evs := by
+  induction n generalizing s with
+  | zero => exact ⟨[], rfl⟩
+  | succ n ih =>
+    simp only [runIdle]
+    split
+    · exact ⟨[], rfl⟩
+    · obtain ⟨evs, h⟩ := ih (pollStep s 0 c)
+      exact ⟨.poll 0 c :: evs, h⟩
+
+theorem M.runIdle_is_run (n : Nat) (s : M.State) : ∃ evs, M.runIdle n s = M.run s evs := by
+  induction n generalizing s with
+  | zero => exact ⟨[], rfl⟩
+  | succ n ih =>
+    simp only [M.runIdle]
+    split
+    · exact ⟨[], rfl⟩
+    · obtain ⟨evs, h⟩ := ih (M.pollStep s 0)
+      exact ⟨.poll 0 :: evs, h⟩
+
+/-! ## non-vacuity -/
+
+/-- three overlapping dispatches, all parked, the middle one aborted, the others completing out of order -/
+def exHistory : List Event :=
+  [.dispatch 10, .dispatch 11, .dispatch 12, .poll 0 false, .poll 0 false, .poll 0 false,
+   .abort 1, .ready 2 102, .poll 0 false, .poll 0 false]
+
+example :
+    let s := run (init none) exHistory
+    s.pending = true ∧ s.version = 1 ∧ s.value = some 102 ∧ s.input = some 12 ∧ s.idle = true ∧
+    s.tasks.map (·.outcome) = [.running, .aborted, .completed 102] ∧ s.log = [.completed 2 102] := by
+  decide
+
+example :
+    let s := run (init none) (exHistory ++ [.ready 0 100, .clear, .poll 0 false])
+    s.pending = false ∧ s.version = 2 ∧ s.value = some 100 ∧ s.input = none ∧ s.idle = true ∧
+    s.log = [.completed 2 102, .cleared, .completed 0 100] := by
+  decide
+
+/-- the hypothesis of the partial theorem holds on histories with an abort-before-ready … -/
+example : raceFree (init none) (exHistory ++ [.ready 1 101, .ready 0 100, .poll 0 true]) = true := by decide
+
+/-- … also when a poll finds both available and the abort arm wins (the late result is discarded) -/
+example :
+    let evs : List Event := [.dispatch 1, .abort 0, .ready 0 7, .poll 0 false]
+    raceFree (init none) evs = true ∧ (run (init none) evs).value = none ∧
+    (run (init none) evs).version = 0 ∧ (run (init none) evs).pending = false := by decide
+
+/-- … and fails exactly on the witness -/
+example : raceFree (init none) [.dispatch 1, .abort 0, .ready 0 7, .poll 0 true] = false := by decide
+
+/-- a result that was available before `abort()` may legitimately be written (not `abortFirst`) -/
+example :
+    let s := run (init (some 5)) [.dispatch 1, .ready 0 7, .abort 0, .poll 0 true]
+    abortRaceLost s = false ∧ s.value = some 7 ∧ s.version = 1 := by decide
+
+/-- a dropped handle disables the abort arm: the dispatch completes normally -/
+example :
+    let s := run (init none) [.dispatch 1, .dropHandle 0, .abort 0, .poll 0 false, .ready 0 7, .poll 0 false]
+    s.value = some 7 ∧ s.version = 1 ∧ s.pending = false := by decide
+
+/-- multi-action: three overlapping submissions, one canceled before it resolves, one `dispatch_sync` -/
+example :
+    let s := M.run M.init [.dispatch 10, .dispatch 11, .dispatchSync 77, .dispatch 12, .cancel 1,
+      .ready 1 101, .ready 2 102, .poll 1, .poll 1]
+    s.version = 3 ∧ s.subs = [⟨some 10, none, true, false⟩, ⟨none, none, false, true⟩,
+      ⟨none, some 77, false, false⟩, ⟨none, some 102, false, false⟩] := by
+  decide
+
 end Leptos.Action
